@@ -200,3 +200,34 @@ def singular_lshape''', '''                (1 - b) / (2 * np.sqrt(t))) + erf(b /
 
 
 def singular_lshape'''), runs=500)
+
+mut('M0 problem label dropped from the file name (md5 kept)', 'C17',
+    (IP, '''cache_fn = "{}/M0_{}_{}_{}.npy".format(self.cache_dir,
+                                                   self.problem, N, md5)''',
+     '''cache_fn = "{}/M0_{}_{}.npy".format(self.cache_dir, N, md5)'''))
+mut('module-level pool reused across calls', 'C17',
+    (SL, 'def MP_SL_matrix_col(j: int) -> npt.ArrayLike:',
+     '_POOL = []\n\n\ndef MP_SL_matrix_col(j: int) -> npt.ArrayLike:'),
+    (SL, '''            for j, col in enumerate(
+                    mp.Pool(mp.cpu_count()).imap(MP_SL_matrix_col, range(M),''',
+     '''            if not _POOL: _POOL.append(mp.Pool(mp.cpu_count()))
+            for j, col in enumerate(
+                    _POOL[0].imap(MP_SL_matrix_col, range(M),'''))
+mut('matrix saved inside the loop (partial file on a crash)', 'C17',
+    (SL, '                mat[:, j] = col\n',
+     '''                mat[:, j] = col
+                if self.cache_dir is not None and j % 4 == 3:
+                    try:
+                        np.save(cache_fn, mat)
+                    except:
+                        pass
+'''))
+mut('cache key formats coordinates with 6 significant digits', 'C17',
+    (SL, '''            md5 = hashlib.md5((str(self.mesh.gamma_space) + str(elems_test) +
+                               str(elems_trial)).encode()).hexdigest()''',
+     '''            _k = lambda es: ';'.join('{:g},{:g},{:g},{:g}'.format(
+                *e.time_interval, *e.space_interval) for e in es)
+            md5 = hashlib.md5((str(self.mesh.gamma_space) + _k(elems_test) +
+                               '|' + _k(elems_trial)).encode()).hexdigest()'''))
+mut('residual no longer registers the point tables of new elements', 'C03',
+    (EE, '        SL._init_elems(elems)\n', '        pass\n'), runs=400)
